@@ -45,13 +45,12 @@ struct spectrum_t
     std::string name;
 };
 
-std::vector<spectrum_t> make_spectra(const bool thorough)
+std::vector<spectrum_t> make_spectra()
 {
     // the distinct members of {5 shapes} x {kappa}: "all equal" is the only shape with kappa = 1 and has no other kappa
     std::vector<spectrum_t> s;
     s.push_back({shape::equal, 1.0, "equal/kappa=1"});
-    const auto kappas = thorough ? std::vector<double>{10.0, 1e2, 1e3} : std::vector<double>{1e3};
-    for (const auto k : kappas)
+    for (const auto k : {10.0, 1e2, 1e3})
     {
         char buf[32];
         std::snprintf(buf, sizeof(buf), "%g", k);
@@ -339,7 +338,8 @@ std::vector<std::string> judge_quadratic(const quad_answer_t& r, const int n, co
     {
         bad.emplace_back("more-than-1500-evaluations");
     }
-    if (!(r.distance <= distance_bound(n, EPSILON_QUAD, r.fx, lambda_min, shift)))
+    // the bound is stated for the point returned with status converged (a run that is not converged is already reported)
+    if (r.converged && !(r.distance <= distance_bound(n, EPSILON_QUAD, r.fx, lambda_min, shift)))
     {
         bad.emplace_back("distance-to-minimiser-above-bound");
     }
@@ -371,6 +371,60 @@ bool judge_truthful(const bool converged, const double criterion, const double e
     return !converged || criterion < epsilon;
 }
 
+/// a run that reported `converged`, judged on the returned (fx, gx) and on (f2, g2) recomputed at the returned x
+enum class truth
+{
+    met,              ///< recomputed criterion < epsilon
+    within_rounding,  ///< missed by rounding only: returned values agree to 1e-13 and their own criterion is < epsilon
+    criterion_not_met, ///< the returned state is the function at the returned point and does not meet the criterion
+    other_point       ///< the returned (fx, gx) are not those of the returned x: the criterion was met somewhere else
+};
+
+struct truth_t
+{
+    truth  verdict{truth::met};
+    bool   bitwise{false}, close{false};
+    double criterion{0}, criterion_state{0};
+};
+
+truth_t judge_converged(const double sfx, const std::vector<double>& sgx, const double f2, const std::vector<double>& g2,
+                        const double epsilon)
+{
+    truth_t t;
+    t.criterion       = gradient_criterion(g2, f2);
+    t.criterion_state = gradient_criterion(sgx, sfx);
+    t.bitwise         = sgx.size() == g2.size() &&
+                (g2.empty() || std::memcmp(sgx.data(), g2.data(), g2.size() * sizeof(double)) == 0) &&
+                std::memcmp(&sfx, &f2, sizeof(double)) == 0;
+    t.close = sgx.size() == g2.size() && std::fabs(sfx - f2) <= 1e-13 * std::max(std::fabs(sfx), std::fabs(f2));
+    double scale = 0;
+    for (const auto v : g2)
+    {
+        scale = std::max(scale, std::fabs(v));
+    }
+    for (size_t i = 0; t.close && i < g2.size(); ++i)
+    {
+        t.close = std::fabs(sgx[i] - g2[i]) <= 1e-13 * scale;
+    }
+    if (judge_truthful(true, t.criterion, epsilon))
+    {
+        t.verdict = truth::met;
+    }
+    else if (t.bitwise || (t.close && !(t.criterion_state < epsilon)))
+    {
+        t.verdict = truth::criterion_not_met;
+    }
+    else if (t.close)
+    {
+        t.verdict = truth::within_rounding;
+    }
+    else
+    {
+        t.verdict = truth::other_point;
+    }
+    return t;
+}
+
 bool self_test()
 {
     bool ok = true;
@@ -379,6 +433,8 @@ bool self_test()
     ok = ok && judge_quadratic(good, 4, 1.0, 0.0).empty(); // bound = 2e-8
     auto r = good;
     r.converged = false;
+    ok          = ok && judge_quadratic(r, 4, 1.0, 0.0) == std::vector<std::string>{"not-converged"};
+    r.distance  = 1.0; // not converged: reported once, as not converged
     ok          = ok && judge_quadratic(r, 4, 1.0, 0.0) == std::vector<std::string>{"not-converged"};
     r           = good;
     r.evaluations = 1501;
@@ -400,6 +456,11 @@ bool self_test()
     ok = ok && judge_truthful(false, 1.0, 1e-6);
     ok = ok && gradient_criterion({3.0, -4.0}, 0.5) == 4.0 && gradient_criterion({3.0, -4.0}, -8.0) == 0.5;
     ok = ok && std::isnan(gradient_criterion({std::numeric_limits<double>::quiet_NaN()}, 1.0));
+    ok = ok && judge_converged(0.5, {1e-7, -2e-7}, 0.5, {1e-7, -2e-7}, 1e-6).verdict == truth::met;
+    ok = ok && judge_converged(0.5, {1e-7, -2e-6}, 0.5, {1e-7, -2e-6}, 1e-6).verdict == truth::criterion_not_met;
+    ok = ok && judge_converged(0.5, {1e-7, -2e-7}, 0.5, {1e-7, -2e-6}, 1e-6).verdict == truth::other_point;
+    ok = ok && judge_converged(0.7, {1e-7, -2e-7}, 0.5, {1e-7, -2e-6}, 1e-6).verdict == truth::other_point;
+    ok = ok && judge_converged(0.5, {0.0, std::nextafter(1e-6, 0.0)}, 0.5, {0.0, 1e-6}, 1e-6).verdict == truth::within_rounding;
     // the harness quadratic and the counting wrapper: n = 2, A = diag(2, 4), x* = (1, -1): f = x0^2 + 2 x1^2 - 2 x0 + 4 x1
     {
         auto q        = std::make_shared<quad_t>(make_quad(2, {1.0, 2.0}, 2.0, 0, {1.0, -1.0}));
@@ -472,19 +533,21 @@ struct solver_config_t
     std::string id;
     int         history; ///< lbfgs only (0: not set)
     std::string name;
+    bool        full;    ///< default configuration: all three clauses; otherwise the truthfulness clause only
 };
 
 int stage_quadratic(const args_t& args)
 {
     report_t r("c01/quadratic", args);
 
-    const std::vector<int> dims = args.thorough() ? std::vector<int>{1, 2, 3, 4, 8, 16} : std::vector<int>{1, 2, 3, 4};
-    const auto                spectra = make_spectra(args.thorough());
+    // the whole lattice of the design costs about a second, so both tiers enumerate all of it
+    const std::vector<int>    dims    = {1, 2, 3, 4, 8, 16};
+    const auto                spectra = make_spectra();
     const std::vector<double> scales  = {1.0, 1e-3, 1e3};
-    const std::vector<solver_config_t> solvers = {{"lbfgs", 20, "lbfgs (history 20 = default)"},
-                                                  {"bfgs", 0, "bfgs"},
-                                                  {"lbfgs", 5, "lbfgs history 5"},
-                                                  {"lbfgs", 1, "lbfgs history 1"}};
+    const std::vector<solver_config_t> solvers = {{"lbfgs", 20, "lbfgs (history 20 = default)", true},
+                                                  {"bfgs", 0, "bfgs", true},
+                                                  {"lbfgs", 5, "lbfgs history 5 (truthfulness only)", false},
+                                                  {"lbfgs", 1, "lbfgs history 1 (truthfulness only)", false}};
     const std::vector<std::string>     solver_keys = {"lbfgs-h20", "bfgs", "lbfgs-h5", "lbfgs-h1"};
 
     // verify numerically that every A has the spectrum it is meant to have (and Q is orthogonal through that)
@@ -560,6 +623,11 @@ int stage_quadratic(const args_t& args)
              "between x* and the exact minimiser of the quadratic with the rounded coefficients");
     r.assume("members of the product that coincide with a simpler member (n = 1: one spectrum, one Q; n = 2: the four "
              "shapes coincide; coinciding x*, x0) are skipped, not counted");
+    r.assume("the convergence clause (status converged, <= 1500 counted evaluations, distance bound) is judged for the "
+             "default configurations only (lbfgs with its default history 20, bfgs), as the statement words it; lbfgs "
+             "with history 1 and 5 is held to the truthfulness clause (converged => recomputed criterion < epsilon, "
+             "returned fx/gx are those of the returned x) and its evaluation counts / non-convergences are recorded as "
+             "outcomes '...(not judged)'");
     r.assume("solver::epsilon = 1e-8, solver::max_evals = 5000 (so that the budget of the solver does not bind before "
              "the 1500 of the statement), everything else as constructed by solver_t::all().get(id)");
     r.note("worst_relative_spectrum_error", jstr(jnum(worst_spectrum_error)));
@@ -639,7 +707,8 @@ int stage_quadratic(const args_t& args)
         }
 
         const auto one = "q:" + std::to_string(index);
-        const auto key = "quadratic:" + solver_keys[d[6]] + ":";
+        // the minimum value is 0 for x* = 0 (the criterion is then absolute: max|g| < epsilon) and negative otherwise
+        const auto key = "quadratic:" + solver_keys[d[6]] + (xk == 0 ? ":fmin=0:" : ":fmin<0:");
         const auto describe = [&](const std::vector<std::pair<std::string, std::string>>& more) {
             std::string o = "{";
             o += jstr("n") + ":" + jint(n) + "," + jstr("spectrum") + ":" + jstr(sp.name) + "," + jstr("sigma") + ":" +
@@ -657,7 +726,10 @@ int stage_quadratic(const args_t& args)
         if (!thrown.empty())
         {
             r.outcome("exception");
-            r.violation(key + "exception", one, describe({{"exception", jstr(thrown)}}));
+            if (sc.full)
+            {
+                r.violation(key + "exception", one, describe({{"exception", jstr(thrown)}}));
+            }
             return;
         }
 
@@ -689,6 +761,8 @@ int stage_quadratic(const args_t& args)
         const auto bound = distance_bound(n, EPSILON_QUAD, ans.fx, q->lambda_min, q->shift);
         const auto ratio = ans.distance / bound;
         const auto crit  = gradient_criterion(g2, ans.fx);
+        const auto sgx   = to_std(state.gx());
+        const auto truth = judge_converged(state.fx(), sgx, ans.fx, g2, EPSILON_QUAD);
 
         const auto detail = [&]() {
             return describe({{"status", jstr(status_name(state.status()))},
@@ -701,6 +775,9 @@ int stage_quadratic(const args_t& args)
                              {"x", jarr_num(sx)},
                              {"f(x)", jnum(ans.fx)},
                              {"state.fx", jnum(state.fx())},
+                             {"state.gx", jarr_num(sgx)},
+                             {"grad f(x)", jarr_num(g2)},
+                             {"criterion_from_returned_state", jnum(truth.criterion_state)},
                              {"recomputed_gradient_criterion", jnum(crit)},
                              {"epsilon", jnum(EPSILON_QUAD)},
                              {"distance", jnum(ans.distance)},
@@ -708,13 +785,40 @@ int stage_quadratic(const args_t& args)
                              {"rounding_shift_in_bound", jnum(q->shift)}});
         };
 
+        // convergence clause (converged, <= 1500 evaluations, distance bound): the statement words it for "the L-BFGS or
+        // BFGS solver at epsilon = 1e-8", i.e. the default configurations; for lbfgs history 1 and 5 the same facts are
+        // recorded as outcomes and not judged
         for (const auto& b : judge_quadratic(ans, n, q->lambda_min, q->shift))
         {
-            r.violation(key + b + (b == "not-converged" ? ":" + status_name(state.status()) : ""), one, detail());
+            if (sc.full)
+            {
+                r.violation(key + b + (b == "not-converged" ? ":" + status_name(state.status()) : ""), one, detail());
+            }
+            else
+            {
+                r.outcome(solver_keys[d[6]] + ":" + b + "(not judged)");
+            }
         }
-        if (!judge_truthful(ans.converged, crit, EPSILON_QUAD))
+        // truthfulness clause and honesty of the returned (fx, gx): every configuration
+        if (ans.converged)
         {
-            r.violation(key + "converged-but-recomputed-criterion>=epsilon", one, detail());
+            switch (truth.verdict)
+            {
+            case truth::criterion_not_met:
+                r.violation(key + "converged-but-recomputed-criterion>=epsilon", one, detail());
+                break;
+            case truth::other_point:
+                r.violation(key + "converged-at-a-point-that-is-not-the-returned-one", one, detail());
+                break;
+            case truth::within_rounding: r.outcome("converged:criterion-within-rounding-of-epsilon"); break;
+            default:
+                if (!truth.bitwise)
+                {
+                    r.outcome(truth.close ? "converged:returned-gx-equal-to-recomputed-up-to-rounding"
+                                          : "converged:returned-gx-differs-from-recomputed(criterion-still-met)");
+                }
+                break;
+            }
         }
 
         // non-trivial: the solver had to iterate (more than the evaluation at x0) and reported convergence
@@ -723,8 +827,9 @@ int stage_quadratic(const args_t& args)
             ++r.nontrivial;
         }
         r.outcome(status_name(state.status()) + (counter.values > 1 ? "" : ":at-x0"));
-        r.outcome("evaluations" + bucket<long>(ans.evaluations, {2, 25, 50, 100, 200, 400, 800, 1500}, "%ld"));
-        r.outcome("distance/bound" + bucket<double>(ratio, {1e-6, 1e-4, 1e-2, 0.1, 0.5, 1.0}, "%g"));
+        const std::string judged = sc.full ? "judged:" : "not-judged:";
+        r.outcome(judged + "evaluations" + bucket<long>(ans.evaluations, {2, 25, 50, 100, 200, 400, 800, 1500}, "%ld"));
+        r.outcome(judged + "distance/bound" + bucket<double>(ratio, {1e-6, 1e-4, 1e-2, 0.1, 0.5, 1.0}, "%g"));
         if (ans.evaluations > max_evaluations[d[6]])
         {
             max_evaluations[d[6]]      = ans.evaluations;
@@ -953,21 +1058,11 @@ int stage_truthful(const args_t& args)
             f2 = fresh->vgrad(state.x(), g);
             g2 = to_std(g);
         }
-        const auto crit       = gradient_criterion(g2, f2);
-        const auto crit_state = gradient_criterion(sgx, sfx);
-        const bool bitwise    = same_bits(sgx, g2) && std::memcmp(&sfx, &f2, sizeof(double)) == 0;
-        bool       close      = sgx.size() == g2.size() && std::fabs(sfx - f2) <= 1e-13 * std::max(std::fabs(sfx), std::fabs(f2));
-        {
-            double scale = 0;
-            for (const auto v : g2)
-            {
-                scale = std::max(scale, std::fabs(v));
-            }
-            for (size_t i = 0; close && i < g2.size(); ++i)
-            {
-                close = std::fabs(sgx[i] - g2[i]) <= 1e-13 * scale;
-            }
-        }
+        const auto truth      = judge_converged(sfx, sgx, f2, g2, eps);
+        const auto crit       = truth.criterion;
+        const auto crit_state = truth.criterion_state;
+        const bool bitwise    = truth.bitwise;
+        const bool close      = truth.close;
 
         const auto detail = [&]() {
             return jobj({{"function", jstr(fn.name)},
@@ -992,15 +1087,15 @@ int stage_truthful(const args_t& args)
         };
 
         std::string what = "converged";
-        if (!judge_truthful(true, crit, eps))
+        if (truth.verdict != truth::met)
         {
-            if (bitwise || (close && !(crit_state < eps)))
+            if (truth.verdict == truth::criterion_not_met)
             {
                 // the returned state is the function at the returned point, and it does not meet the criterion
                 r.violation("truthful:" + sid + ":converged-but-recomputed-criterion>=epsilon", one, detail());
                 what = "converged:VIOLATION";
             }
-            else if (close)
+            else if (truth.verdict == truth::within_rounding)
             {
                 what = "converged:criterion-within-rounding-of-epsilon";
             }
